@@ -17,6 +17,10 @@ DDOJO = json.dumps({"results": []})
 
 def setup_files(d):
     w = lambda n, t: open(os.path.join(d, n), "w").write(t)
+    # SARIF files with several runs: a second tool's run, a run the tool detection cannot read (no driver name), a run of an unknown tool
+    w("m_nameless.sarif", json.dumps({"runs": [{"tool": {"driver": {"name": "Semgrep OSS"}}, "results": []}, {"tool": {"driver": {"rules": []}}, "results": []}]}))
+    w("m_nameless_first.sarif", json.dumps({"runs": [{"tool": {"driver": {"rules": []}}, "results": []}, {"tool": {"driver": {"name": "Semgrep OSS"}}, "results": []}]}))
+    w("m_unknown.sarif", json.dumps({"runs": [{"tool": {"driver": {"name": "Bandit"}}, "results": []}, {"tool": {"driver": {"name": "CodeQL"}}, "results": []}]}))
     w("s1.sarif", SARIF); w("s2.sarif", SARIF); w("c.sarif", CODEQL); w("c2.sarif", CODEQL); w("sonar.json", SONAR); w("hot.json", SONAR); w("dd.json", DDOJO)
     p = os.path.join(d, "ro"); os.makedirs(p); os.chmod(p, 0o555)
     open(os.path.join(d, "afile"), "w").write("x")
@@ -25,7 +29,7 @@ def setup_files(d):
 VALID = [  # (label, args) — each keeps the run valid
     ("dry", ["--dry-run"]), ("no-dry", ["--no-dry-run"]), ("verbose", ["--verbose"]), ("no-verbose", ["--no-verbose"]), ("log-json", ["--log-format", "json"]), ("log-human", ["--log-format", "human"]),
     ("project", ["--project-name", "proj x"]), ("workers", ["--max-workers", "3"]), ("fmt-codetf", ["--output-format", "codetf"]), ("fmt-diff", ["--output-format", "diff"]),
-    ("inc-path", ["--path-include", "*.py,pkg/*.py:2"]), ("exc-path", ["--path-exclude", "pkg/*"]), ("sarif", ["--sarif", "{dir}/s1.sarif"]), ("sarif-2tools", ["--sarif", "{dir}/s1.sarif,{dir}/c.sarif"]),
+    ("inc-path", ["--path-include", "*.py,pkg/*.py:2"]), ("exc-path", ["--path-exclude", "pkg/*"]), ("sarif", ["--sarif", "{dir}/s1.sarif"]), ("sarif-2tools", ["--sarif", "{dir}/s1.sarif,{dir}/c.sarif"]), ("sarif-nameless-run", ["--sarif", "{dir}/m_nameless.sarif"]), ("sarif-unknown+codeql-runs", ["--sarif", "{dir}/m_unknown.sarif,{dir}/s1.sarif"]),
     ("sonar", ["--sonar-issues-json", "{dir}/sonar.json"]), ("hotspots", ["--sonar-hotspots-json", "{dir}/hot.json"]), ("defectdojo", ["--defectdojo-findings-json", "{dir}/dd.json"]),
 ]
 SELECT = [("include", CM), ("exclude", ["--codemod-exclude", "pixee:python/*,sonar:*,semgrep:*,defectdojo:*,codeql:*"]), ("unknown-include", ["--codemod-include", "nope:python/none"]), ("include-twice", CM + CM)]
@@ -38,6 +42,9 @@ MISSING = [  # -> 1
     ("missing-sarif", ["--sarif", "{dir}/missing.sarif"]), ("missing-sonar-issues", ["--sonar-issues-json", "{dir}/missing.json"]), ("missing-sonar-hotspots", ["--sonar-hotspots-json", "{dir}/missing.json"]),
     ("missing-defectdojo", ["--defectdojo-findings-json", "{dir}/missing.json"]), ("dup-tool-sarif", ["--sarif", "{dir}/s1.sarif,{dir}/s2.sarif"]), ("dup-tool-codeql", ["--sarif", "{dir}/c.sarif,{dir}/s1.sarif,{dir}/c2.sarif"]),
     ("one-of-two-sonar-missing", ["--sonar-issues-json", "{dir}/sonar.json,{dir}/missing.json"]),
+    # the same tool twice, one of the files carrying further runs (unreadable / unknown tool) before or after the tool's run
+    ("dup-tool-sarif-with-nameless-run", ["--sarif", "{dir}/s1.sarif,{dir}/m_nameless.sarif"]), ("dup-tool-sarif-with-nameless-run-first", ["--sarif", "{dir}/m_nameless_first.sarif,{dir}/s1.sarif"]),
+    ("dup-tool-codeql-with-unknown-run", ["--sarif", "{dir}/m_unknown.sarif,{dir}/c.sarif"]),
 ]
 AI_BAD = [  # -> 3
     ("azure-key-only", {"CODEMODDER_AZURE_OPENAI_API_KEY": "k"}), ("azure-endpoint-only", {"CODEMODDER_AZURE_OPENAI_ENDPOINT": "https://e"}),
